@@ -389,6 +389,8 @@ class Env:
         dom = self._domain(ref)
         q = ref["query"]
         out = []
+        if q == "":
+            return []          # {?}: the self reference exists only inside a condition
         if q == "*":
             out = [(p, n) for p, n in dom.nodes.items()]
         elif q.endswith(".*"):
